@@ -21,6 +21,17 @@ pub struct LGen {
     pub big_runs: bool,
 }
 
+/// occasionally replace one pool content by a big one (tens to hundreds of KiB, odd sizes around the
+/// 16 KiB / 64 KiB chunking boundaries readers like to use)
+fn with_big_tile(mut pool: Vec<content::ContentSpec>, pick_big: u8, size_sel: u8) -> Vec<content::ContentSpec> {
+    if pick_big % 5 == 0 && !pool.is_empty() {
+        let sizes = [16_385u32, 20_000, 32_769, 65_536, 65_537, 70_001, 131_073, 200_000, 300_001];
+        let i = usize::from(pick_big / 5) % pool.len();
+        pool[i] = content::ContentSpec { kind: 0, len: sizes[usize::from(size_sel) % sizes.len()], seed: u32::from(size_sel) * 7 + 1 };
+    }
+    pool
+}
+
 pub fn layout(g: LGen) -> impl Strategy<Value = Layout> {
     let n = prop_oneof![1 => Just(0usize), 1 => Just(1usize), 6 => 2usize..40, 3 => 40usize..=g.max_entries.max(41)];
     let entries = n.prop_flat_map(|n| proptest::collection::vec(tent(), n));
@@ -29,7 +40,7 @@ pub fn layout(g: LGen) -> impl Strategy<Value = Layout> {
     (
         (1u8..=4, any::<u8>(), any::<u8>(), 0u8..24, proptest::array::uniform5(prop_oneof![3 => Just(0u16), 2 => 1u16..300])),
         (1u8..=3, prop_oneof![2 => 1u16..4, 3 => 4u16..64], 1u16..8, any::<bool>(), prop_oneof![1 => Just(0u32), 1 => any::<u32>()], prop_oneof![2 => Just(0u8), 1 => 1u8..20]),
-        (first_id, entries, content::pool(10, false, false), 0u8..4),
+        (first_id, entries, (content::pool(10, false, false), any::<u8>(), any::<u8>()).prop_map(|(p, a, b)| with_big_tile(p, a, b)), 0u8..4),
         (prop_oneof![1 => Just(None), 3 => json::object(false).prop_map(Some)], 0u8..=5, 0u8..=4, any::<[u8; 3]>(), coords),
     )
         .prop_map(
